@@ -344,16 +344,18 @@ pub proof fn lemma_reversed<T>(v: Seq<T>, r: Seq<T>)
 // ---- what the oracle says, spelled out (sanity of the spec against the property text)
 // `x = v` / `x[i] = v` / `x.m = v` where x is a by-value or view parameter of known type: rejected with E530, pointing at the use and at the parameter
 proof fn lemma_assignment_to_parameter_rejected(p: Parameter, t: Vars, s: Statement, r: Statement)
-	requires p.name is Ok, p.value_type is Ok, s is Assignment, s->Assignment_reference.base == p.name,
+	requires p.name is Ok, p.value_type is Ok, s is Assignment, s->Assignment_reference.base is Ok,
+		s->Assignment_reference.base->Ok_0.resolution_id == p.name->Ok_0.resolution_id,
 		!(passes_through_pointer(s->Assignment_reference.steps@)),
 		ok_s(r, s, tbl_param(p, t)),
 	ensures r == Statement::Poison(Poison::Error(Error::NotMutable {
-		location: p.name->Ok_0.location, location_of_declaration: p.name->Ok_0.location })),
+		location: s->Assignment_reference.base->Ok_0.location, location_of_declaration: p.name->Ok_0.location })),
 {
 }
 // a pointer parameter can be written through (`x = 10` with `x: &i32` has an Autoderef step): accepted
 proof fn lemma_write_through_pointer_parameter_accepted(p: Parameter, t: Vars, s: Statement, r: Statement, i: int)
-	requires p.name is Ok, p.value_type is Ok, s is Assignment, s->Assignment_reference.base == p.name,
+	requires p.name is Ok, p.value_type is Ok, s is Assignment, s->Assignment_reference.base is Ok,
+		s->Assignment_reference.base->Ok_0.resolution_id == p.name->Ok_0.resolution_id,
 		0 <= i < s->Assignment_reference.steps@.len(), s->Assignment_reference.steps@[i] is Autoderef,
 		ok_s(r, s, tbl_param(p, t)),
 	ensures r is Assignment,
